@@ -994,20 +994,20 @@ def run(ctx, sf):
         dispatch(ctx, sf, json.loads(f.read_text()), reqs, pend)
     for v in ("create", "bind"):
         free_isolation_oracle(ctx, sf, v)
-    for _ in range(ctx.n(500, 5000)):
+    for _ in range(ctx.n(1200, 20000)):
         info_one(ctx, sf, gen_info_case(rng), reqs, pend)
         if len(reqs) > 2500:
             flush(ctx, sf, reqs, pend)
-    for _ in range(ctx.n(80, 800)):
+    for _ in range(ctx.n(160, 2500)):
         dispatch(ctx, sf, dict(kind="free", case=gen_free_script(rng)), reqs, pend)
-    for _ in range(ctx.n(150, 1500)):
+    for _ in range(ctx.n(320, 5000)):
         decomp_one(ctx, sf, gen_decomp_case(rng), reqs, pend)
-    for k in range(ctx.n(220, 2500)):
+    for k in range(ctx.n(500, 9000)):
         history_one(ctx, sf, gen_history(rng, shots_variant=(k % 12 == 11)), reqs, pend)
         if len(reqs) > 2500:
             flush(ctx, sf, reqs, pend)
     flush(ctx, sf, reqs, pend)
-    for k in range(ctx.n(110, 1500)):
+    for k in range(ctx.n(230, 5000)):
         spec = gen_prog(rng, nmax=4)
         prog_one(ctx, sf, spec, gen_cfg(rng, spec, k))
 
